@@ -17,7 +17,13 @@ import UgoVerif.Proofs.CompSimProg
     fresh array of exactly the remaining arguments (`rest_eq_drop_args`: the same list the
     reference rule `Sem.bindArgs` binds), the other locals start as undefined;
   * consistency of the hand-written opcode / token numbers of the VM and compiler models
-    with the tables regenerated from opcodes.go and token/token.go.
+    with the tables regenerated from opcodes.go and token/token.go;
+  * two slices of the simulation theorem compile ⊑ Sem (section "compile ⊑ Sem" below):
+    `compile_expr_correct` (expressions over uncaptured scalar locals), `compile_stmt_correct` /
+    `compile_stmts_correct` (`e;`, `x := e`, `x = e`, `x op= e`, blocks, `if` / `else`, `return`), with
+    the VM heap related to the reference heap modulo the reference semantics' variable boxes, and
+    the whole-script corollary `C02_fragment` (compile-model output, loaded and run by the VM
+    model's `Run`, returns what `Sem.runProgram` returns).
 
   `C02_full` (every script's outcome equals the reference semantics Spec/Sem) is NOT
   proved: it is tested by stream `sem` (general, call-heavy, tail-call and try-dense
@@ -731,9 +737,13 @@ example : ∃ n, ∀ fuel, n ≤ fuel → (runFrom F0 fuel .nil [] (loadProg bc0
         _ t1 hr).2
 
 end Ex
-/-- the source-level statement (not proved; tested by stream `sem`; `compile_expr_correct` above is its
-    first proved slice: expressions over uncaptured locals.  Still only tested: statements and
-    everything named at the end of the section above) -/
+/-- the source-level statement (not proved; tested by stream `sem`).  Proved slices of it:
+    `compile_expr_correct`, `compile_stmt_correct`, `compile_stmts_correct`, `C02_fragment` above —
+    scripts built from expression statements, `:=` / `=` / compound assignment on uncaptured scalar
+    locals, blocks, `if` / `else`, `return`.  Still only tested: loops, captured variables / closures,
+    calls, containers (arrays, maps, index, selector, slice), `try` / `catch` / `finally` / `throw`,
+    globals, modules / imports, builtins, `const` / `var` declarations, `++` / `--`, destructuring,
+    `param`, and the fall-off-the-end RETURN of `Bytecode()` when the stream ends in a RETURN -/
 def C02_full (Script Input Outcome : Type) (impl sem : Script → Input → Option Outcome) : Prop :=
   ∀ p i o₁ o₂, impl p i = some o₁ → sem p i = some o₂ → o₁ = o₂
 
